@@ -141,6 +141,29 @@ void h_parse_frame(void) {
             V_POST("C05.quick-reset-rest-untouched", st->mapper_gen_quick == 0 && st->see_list == o.see_list && st->see_list_count == o.see_list_count &&
                    st->small_icon == o.small_icon && st->mapper_gen_topology == o.mapper_gen_topology && st->mapper_seq == o.mapper_seq);
         }
+        /* ---- C06 / C07 / C08 link: the commands of the active mapper (or of any station while none is active - C05's domain)
+         * reach their handlers.  The handlers are replaced by their contracts here, so "was handled" is what the contract's
+         * state clause says (sequence number taken over, mapper established or kept); a dispatcher that drops or filters the
+         * command leaves the old sequence number behind.  parseProbe is inlined: its recording clause is evaluated directly. ---- */
+        {
+            bool from_mapper_or_free = !o.mapper_known || v_mac_eq(o.mapper_real.a, f + 24);
+            if (tos == 0 && op == 0x02 && from_mapper_or_free) {
+                V_POST("C06.emit-dispatched: an Emit from the active mapper is executed", C06_EMIT_STATE(st, f, o.mapper_known, o.mapper_real, o.mapper_apparent));
+                V_CANARY("emit");
+            }
+            if (tos == 0 && op == 0x06 && from_mapper_or_free) {
+                V_POST("C07.query-dispatched: a Query from the active mapper is answered", C07_QUERY_MAPPER(st, f));
+            }
+            if (discovery && op == 0x0B && from_mapper_or_free) {
+                V_POST("C08.qlt-dispatched: a QueryLargeTlv of either discovery service from the active mapper is handled",
+                       C08_QLT_STATE(st, f, o.mapper_known, o.mapper_real, o.mapper_apparent));
+            }
+            if (tos == 0 && (op == 0x03 || op == 0x04)) {
+                V_POST("C07,C10.probe-dispatched: a Probe / Train addressed to this station is recorded whoever the mapper is (or is not)",
+                       C07_PROBE(st, f, o.see_list, o.see_list_count, live0, 0u, 0u));
+                V_CANARY("probe");
+            }
+        }
         /* ---- Hello heard: only logged ---- */
         if (op == 0x01) {
             V_POST("C03.hello-heard-inert: Hellos of other stations change nothing", v_st_same(st, &o) && g_led.tx_attempts == 0 && g_led.allocs == 0);
